@@ -559,7 +559,13 @@ pub fn binding_structure(case: &Case, real: &RealTrace) -> Option<Finding> {
         .first()
         .map(|c| c.inputs.iter().map(|i| (i.1.clone(), i.2)).collect());
     for (k, st) in real.steps.iter().enumerate() {
-        let RealItem::Row(row) = &st.item else { continue };
+        let RealItem::Row(row) = &st.item else {
+            // an error item whose call was issued: that vector *was* handed to the driver
+            if st.calls.1 > st.calls.0 {
+                prev = Some(real.calls[st.calls.1 - 1].inputs.iter().map(|i| (i.1.clone(), i.2)).collect());
+            }
+            continue;
+        };
         let got: Vec<usize> = row.inputs.iter().map(|i| i.0).collect();
         if got != insigs {
             return Some(Finding::new(
